@@ -10,7 +10,8 @@ Nodes == {[http |-> h, mark |-> m, text |-> t, fetch |-> f] :
 Sensible(n, override) == /\ (n.mark = "bom" => n.http = "none" /\ override = "none" /\ ~n.text)
                          /\ (n.fetch # "data" => n.http = "none" /\ n.mark = "none" /\ ~n.text)
 Roots == {[override |-> o, mark |-> m, text |-> t] : o \in {"none", "iso-8859-5"}, m \in {"none", "cs:koi8-r", "cs:iso-8859-1"}, t \in BOOLEAN}
-SmallNodes == {n \in Nodes : n.text = FALSE /\ n.http \in {"none", "koi8-r"} /\ n.mark \in {"none", "cs:iso-8859-5"}}
+\* (first levels of longer chains; delivered as bytes or as text - a text whose @charset disagrees with its transport charset included)
+SmallNodes == {n \in Nodes : n.http \in {"none", "koi8-r"} /\ n.mark \in {"none", "cs:iso-8859-5"} /\ (n.text => n.fetch = "data")}
 OkNodes(r) == {x \in Nodes : Sensible(x, r.override)}
 OkSmall(r) == {x \in SmallNodes : Sensible(x, r.override)}
 ChainRows ==
@@ -22,6 +23,9 @@ Chars == {<<233>>, <<1103>>, <<8364>>, <<20013>>, <<128512>>, <<233, 66>>}    \*
 EscapeRows == {[kind |-> "escape", target |-> t, cps |-> c, pos |-> p] :
                   t \in {"ascii", "iso-8859-1", "koi8-r", "cp1252", "utf-8", "utf-16"}, c \in Chars,
                   p \in {"class", "string", "url", "comment", "value-ident"}}
+              \* a code point that needs all six hex digits, followed by a space that is content
+              \cup {[kind |-> "escape", target |-> t, cps |-> <<1114109, 32, 66>>, pos |-> p] :
+                  t \in {"ascii", "iso-8859-1", "cp1252", "utf-8"}, p \in {"string", "comment"}}
               \* a lone surrogate (written in the source as the escape \d800) cannot be encoded by any target, UTF ones included
               \cup {[kind |-> "escape", target |-> t, cps |-> <<55296>>, pos |-> p] :
                   t \in {"ascii", "iso-8859-1", "utf-8", "utf-16", "utf-32"}, p \in {"class", "string", "url", "value-ident"}}
